@@ -212,7 +212,7 @@ class RecordingDispatcher:
             rec.update(r='exc')
             raise
         finally:
-            rec['async'] = [frame_rec(f) for f in self.sock.out[n0:]]
+            rec['async'] = [] if getattr(self, 'concurrent', False) else [frame_rec(f) for f in self.sock.out[n0:]]
         t = triple_rec(reply) if reply else None
         if t is None:
             rec.update(r='garbage')
@@ -273,6 +273,7 @@ def make_real_node(nan):
     root.addHandler(RemoteLogHandler())
     srv = Srv()
     srv.log = root.getChild('srv')
+    srv.rootlog = root
     srv.module_cfg = {'m': {'cls': Mod, 'description': 'a module'}, 'n': {'cls': Mod, 'description': 'another'}}
     seclog = root.getChild('secnode')
     seclog.parent = root
@@ -351,6 +352,135 @@ def run_impl(case):
     died = [e for e in srv.log.errors if e and isinstance(e[0], str) and e[0].startswith('Traceback')]
     return {'outs': sock.out, 'calls': d.calls, 'script': d.script, 'died': bool(died),
             'died_text': died[0][0][-400:] if died else None}
+
+
+# ----------------------------------------------------------------------------------------
+# concurrency: two connections on one real dispatcher + an updater thread, under the deterministic scheduler
+# ----------------------------------------------------------------------------------------
+B_SCRIPT = [b'*IDN?', b'activate n', b'ping b1', b'read n:value', b'change n:_s "bee"', b'ping b2', b'describe n:value',
+            b'do n:_twice 21', b'deactivate n', b'ping b3']
+B_SUBSCRIBED = [b'n']
+
+
+class SchedSock(FakeSock):
+    """scripted socket whose recv and every partial write of sendall are yield points of the scheduler"""
+
+    def __init__(self, sched, name, chunks, piece):
+        super().__init__(chunks)
+        self.sched = sched
+        self.name = name
+        self.piece = piece
+        self.calls = []          # the byte strings handed to sendall
+
+    def recv(self, n):
+        self.sched.yield_(('recv', self.name))
+        return super().recv(n)
+
+    def sendall(self, b):
+        b = bytes(b)
+        self.calls.append(b)
+        for i in range(0, len(b), self.piece):    # sendall hands the frame to the socket in pieces
+            self.sched.yield_(('write', self.name))
+            self.out.append(b[i:i + self.piece])
+
+
+def run_concurrent(case):
+    """connection A gets the (hostile) chunks, connection B a fixed script, a third thread announces updates of module m;
+    all three run under the deterministic scheduler with yield points at recv, at send_lock / dispatcher lock / update lock
+    acquire and release, and at every partial write.  Returns per connection the received byte stream cut into lines."""
+    import random
+    import frappy.modulebase
+    import frappy.protocol.dispatcher
+    import frappy.protocol.interface.handler as fh
+    from frappy.protocol.interface.tcp import TCPRequestHandler
+    from vlib.sched import Scheduler, RandomPolicy
+    fh.formatExtendedStack = lambda *a, **k: ''
+    fh.formatExtendedTraceback = lambda *a, **k: ''
+    s = Scheduler(policy=RandomPolicy(random.Random(case['sched_seed']), case.get('preempt', 0.4)), max_steps=400000)
+    res = {}
+    with contextlib.ExitStack() as stack:
+        for mod in (fh, frappy.protocol.dispatcher, frappy.modulebase):
+            stack.enter_context(s.patched(mod, threading=s.threading))
+        node = make_real_node(False)
+        # the RemoteLogHandler's own lock must be a scheduler lock too: emit() sends (a yield point) while holding it
+        for h in node.rootlog.handlers:
+            h.lock = s.threading.RLock()
+        socks, disps = {}, {}
+        for name, chunks in (('A', [bytes.fromhex(c) for c in case['chunks']]),
+                             ('B', [b''.join(ln + b'\n' for ln in B_SCRIPT)][:1] if case.get('b_one_chunk', True)
+                              else [ln + b'\n' for ln in B_SCRIPT])):
+            sock = SchedSock(s, name, chunks, case.get('piece', 5))
+            d = RecordingDispatcher(node.dispatcher)
+            d.sock = sock
+            d.concurrent = True
+            socks[name], disps[name] = sock, d
+
+        def handler(name):
+            TCPRequestHandler(socks[name], ('127.0.0.1', 1000 + ord(name)), ServerStub(disps[name]))
+
+        def updater():
+            mod = node.secnode.modules['m']
+            for k in range(case.get('updates', 6)):
+                s.yield_(('update', k))
+                mod.announceUpdate('value', 10.0 + k)
+                mod.announceUpdate('s', 'u%d' % k)
+
+        with contextlib.redirect_stdout(io.StringIO()):
+            s.spawn('A', handler, ('A',))
+            s.spawn('B', handler, ('B',))
+            s.spawn('U', updater)
+            out = s.run(wall_timeout=60.0)
+    if out['aborted'] or out['deadlock']:
+        raise RuntimeError(f'concurrent run did not finish: {out}')
+    for name in 'AB':
+        data = b''.join(socks[name].out)
+        lines = data.split(b'\n')
+        res[name] = {'received': data, 'lines': [ln + b'\n' for ln in lines[:-1]] + ([lines[-1]] if lines[-1] else []),
+                     'frames_sent': socks[name].calls, 'script': disps[name].script, 'calls': disps[name].calls}
+    res['errors'] = out['errors']
+    res['steps'] = out['steps']
+    return res
+
+
+def evaluate_concurrent(ctx, case):
+    """run and judge one concurrent case; returns {'bad': None | {...}, 'res': ...}"""
+    res = run_concurrent(case)
+    streams = {'A': b''.join(bytes.fromhex(c) for c in case['chunks']), 'B': b''.join(ln + b'\n' for ln in B_SCRIPT)}
+    reqs = []
+    for name in 'AB':
+        outs = res[name]['lines']
+        reqs.append({'p': 'C07', 'k': 'judge', 'stream': hx(streams[name]), 'outs': [hx(o) for o in outs],
+                     'flags': [line_flags(o, True) for o in outs]})
+    reqs.append({'p': 'C07', 'k': 'judge_events', 'outs': [hx(o) for o in res['B']['lines']], 'subscribed': [hx(x) for x in B_SUBSCRIBED]})
+    ja, jb, je = ctx.driver.batch(reqs)
+    for a in (ja, jb, je):
+        if 'driver_error' in a:
+            raise RuntimeError(a)
+    bad = None
+    if res['errors']:
+        bad = {'clause': 'thread_died', 'errors': res['errors']}
+    elif ja['bad'] is not None:
+        bad = dict(ja['bad'], conn='A')
+    elif jb['bad'] is not None:
+        bad = dict(jb['bad'], conn='B')
+    elif je['bad'] is not None:
+        bad = {'clause': 'no_leak', 'i': je['bad'], 'conn': 'B'}
+    return {'bad': bad, 'res': res, 'case': case}
+
+
+def gen_concurrent(rng):
+    lines = []
+    for _ in range(rng.choice([2, 3, 4, 6])):
+        ln = gen_request(rng, True)
+        if rng.random() < 0.4:
+            ln = mutate(rng, ln)
+        lines.append(ln)
+    if rng.random() < 0.7:
+        lines.insert(rng.randrange(len(lines) + 1), rng.choice([b'activate', b'activate m', b'activate m:value', b'logging . "debug"']))
+    stream = b''.join(ln + b'\n' for ln in lines)
+    return {'kind': 'concurrent', 'chunks': [hx(c) for c in segment(rng, stream) if c], 'sched_seed': rng.randrange(1 << 30),
+            'preempt': rng.choice([0.2, 0.5, 0.8]), 'piece': rng.choice([1, 3, 5, 16, 4096]), 'updates': rng.choice([2, 6]),
+            'b_one_chunk': rng.random() < 0.5}
 
 
 def oracle_tables(ctx, streams):
@@ -698,16 +828,20 @@ def run(ctx):
                 'white space incl. Unicode, CR/LF variants, blank lines, 1-64 KiB lines), delivered to the real TCPRequestHandler in '
                 'random segmentations (all 2^(n-1) segmentations of the short streams), with a stub dispatcher doing per call one of '
                 '27 things (fitting reply, reply after events, 6 SECoP errors, 6 other exceptions, 9 kinds of unusable return value) '
-                'or the real Dispatcher over a two-module node; non-trivial = at least 2 request lines in at least 2 chunks with at '
+                'or the real Dispatcher over a two-module node; plus concurrent cases (connection A with such a stream, connection B with a fixed '
+                'script, a third thread announcing updates, all on one real dispatcher under the deterministic scheduler with partial '
+                'writes); non-trivial = at least 2 request lines in at least 2 chunks with at '
                 'least one positive and one error reply')
     rng = ctx.rng
     big = ctx.tier == 'thorough' or ctx.escalated
     cases = []
+    conc_corpus = []
     cdir = os.path.join(ctx.verif, 'corpus', 'C07')
     if os.path.isdir(cdir):
         for fn in sorted(os.listdir(cdir)):
             if fn.endswith('.json'):
-                cases.append(json.load(open(os.path.join(cdir, fn)))['case'])
+                c = json.load(open(os.path.join(cdir, fn)))['case']
+                (conc_corpus if c.get('kind') == 'concurrent' else cases).append(c)
     ncorpus = len(cases)
     # exhaustive segmentations of short streams
     shorts = list(SHORT_STREAMS)
@@ -777,11 +911,44 @@ def run(ctx):
                 res.violations.append({'sig': sig, 'what': describe(ev), 'case': ev['case'],
                                        'detail': {'verdict': ev['judge']['bad'], 'died': ev['impl']['died_text']}})
     res.notes.append(f'{ncorpus} corpus cases run first')
+    # ---------- concurrency: two connections + an updater thread on one real dispatcher, scheduled deterministically ----------
+    conc = [c for c in conc_corpus]
+    for _ in range(ctx.budget(80, 1200)):
+        conc.append(gen_concurrent(rng))
+    for case in conc:
+        ev = evaluate_concurrent(ctx, case)
+        res.evaluations += 1
+        res.traces += 2
+        res.count('concurrent.cases')
+        res.count('concurrent.piece=%s' % case.get('piece'))
+        r = ev['res']
+        nupd_a = sum(1 for ln in r['A']['lines'] if ln.startswith(b'update '))
+        res.count('concurrent.A-got-events' if nupd_a else 'concurrent.A-no-events')
+        if nupd_a and len(r['A']['lines']) > nupd_a:
+            res.nontriv(case)
+        if ev['bad'] is not None:
+            sig = 'C07:concurrent:' + ev['bad']['clause']
+            if sig in seen_sigs:
+                continue
+            seen_sigs.add(sig)
+            res.violations.append({'sig': sig, 'what': f"{ev['bad']}: concurrent case {case}; A received {r['A']['lines'][:8]}; "
+                                                       f"B received {r['B']['lines'][:8]}",
+                                   'case': case, 'detail': {'verdict': ev['bad'], 'steps': r['steps']}})
     return res
 
 
 def replay(ctx, rp):
     case = rp['case']
+    if case.get('kind') == 'concurrent':
+        ev = evaluate_concurrent(ctx, case)
+        print('case   :', case)
+        for name in 'AB':
+            print(f'{name} received:')
+            for ln in ev['res'][name]['lines']:
+                print('   ', ln[:160])
+        print('thread errors:', ev['res']['errors'], 'steps:', ev['res']['steps'])
+        print('judge  :', ev['bad'])
+        return 0 if ev['bad'] is None else 1
     ev = evaluate(ctx, [case])[0]
     print('chunks :', [bytes.fromhex(c)[:200] for c in case['chunks']])
     print('disp   :', case['disp'])
